@@ -165,7 +165,7 @@ static int filter_assembly_str_fsa(const char unfiltered_str[],
   int i = 0;
   while (unfiltered_str[i] != ';' && unfiltered_str[i] != '%' &&
          unfiltered_str[i] != '\r' && unfiltered_str[i] != '\n' &&
-         unfiltered_str[i] != '\0' && j < MAX_LINE_LEN) {
+         unfiltered_str[i] != '\0' && j < MAX_LINE_LEN - 1) {
     switch (filter_state) {
     case BEGIN:
       if (unfiltered_str[i] >= 'A' && unfiltered_str[i] <= 'z') {
@@ -192,6 +192,13 @@ static int filter_assembly_str_fsa(const char unfiltered_str[],
       return NA;
     }
     i++;
+  }
+  // the filtered line must fit (with its terminator) in the caller's buffer
+  if (j == MAX_LINE_LEN - 1 && unfiltered_str[i] != ';' &&
+      unfiltered_str[i] != '%' && unfiltered_str[i] != '\r' &&
+      unfiltered_str[i] != '\n' && unfiltered_str[i] != '\0') {
+    fprintf(stderr, "assembyline: instruction is too long\n");
+    return NA;
   }
   return i;
 }
